@@ -190,7 +190,34 @@ def run_lines(exe, lines, tag, timeout=1500):
             tmp = cpath + ".tmp%d" % os.getpid()
             open(tmp, "w").write("\n".join(out) + "\n")
             os.replace(tmp, cpath)
+            _prune_cache()
         return out, bad
+
+
+CACHE_MAX_BYTES = 8 * 1024 ** 3
+
+
+def _prune_cache():
+    """keep the output cache bounded (outputs are keyed by binary hash: every changed tree adds a new set)"""
+    d = os.path.join(BUILD, "cache")
+    try:
+        ents = []
+        for fn in os.listdir(d):
+            st = os.stat(os.path.join(d, fn))
+            ents.append((st.st_mtime, st.st_size, fn))
+        total = sum(e[1] for e in ents)
+        if total <= CACHE_MAX_BYTES:
+            return
+        for mt, sz, fn in sorted(ents):
+            if total <= CACHE_MAX_BYTES * 2 // 3:
+                break
+            try:
+                os.remove(os.path.join(d, fn))
+                total -= sz
+            except OSError:
+                pass
+    except OSError:
+        pass
 
 
 def _toks(rest):
